@@ -37,6 +37,17 @@ unsigned char* vt_alloc_bytes(unsigned long n)
   return p;
 }
 void vt_free_bytes(unsigned char* p) { free(p); }
+/* POSIX model (assumed contract), see posix_model.h */
+#define VT_POSIX_IMPL
+#include "posix_model.h"
+struct vt_fd_state vt_fd;
+VT_POSIX_ACCESSORS
+int vt_errno_cell;
+void vt_set_errno(int e) { vt_errno_cell = e; }
+int* __errno_location(void) { return &vt_errno_cell; }
+long read(int fd, void* buf, unsigned long count) { return vt_posix_read(fd, buf, count); }
+long write(int fd, const void* buf, unsigned long count) { return vt_posix_write(fd, buf, count); }
+int close(int fd) { return vt_posix_close(fd); }
 #else
 #define __CPROVER_thread_local _Thread_local
 unsigned char vt_nd_u8(void);
